@@ -15,9 +15,14 @@ macro_rules! dispatch {
             "C03" => engine::$f::<c03::C03>($($arg),*),
             "C05" => engine::$f::<c05::C05>($($arg),*),
             "C06" => engine::$f::<c06::C06>($($arg),*),
+            "C07" => engine::$f::<c07::C07>($($arg),*),
             "C08" => engine::$f::<c08::C08>($($arg),*),
             "C09" => engine::$f::<c09::C09>($($arg),*),
             "C11" => engine::$f::<c11::C11>($($arg),*),
+            "C12" => engine::$f::<c12::C12>($($arg),*),
+            "C13" => engine::$f::<c13::C13>($($arg),*),
+            "C15" => engine::$f::<c15::C15>($($arg),*),
+            "C16" => engine::$f::<c16::C16>($($arg),*),
             "C17" => engine::$f::<c17::C17>($($arg),*),
             "C18" => engine::$f::<c18::C18>($($arg),*),
             "C19" => engine::$f::<c19::C19>($($arg),*),
